@@ -9,7 +9,7 @@ package mon
 // logger; at quiescence every component must show the last value.
 // (3) shutdown monitor: several caches on one config destroyed in every order; later
 // changes must reach exactly the survivors.
-// (4) policy switches toggled between requests through the real proxy.
+// (4) policy switches toggled between requests through the real proxy, once with Overwrite on the usual rig proxy and once through the API entry point on a proxy built from a default configuration whose policy settings nobody touched before NewProxy.
 
 import (
 	"context"
@@ -464,7 +464,25 @@ func c19RunPolicy(b core.Batch, r *core.Recorder) {
 		rig.ServeBody(w, 4, 1, 200, map[string]string{"Cache-Control": "no-store"})
 	})
 	defer o.Close()
-	p := rig.StartProxy(rig.ProxyOpts{Backend: b.Str("backend", "memory")})
+	// via = "overwrite": the rig's usual proxy, switches flipped with Overwrite. via = "api-pristine": the proxy is
+	// built from a default configuration whose policy and retry settings nobody has touched or subscribed to before
+	// NewProxy (as in production), and the switches are flipped through the API entry point.
+	via := b.Str("via", "overwrite")
+	var p *rig.ProxyRig
+	if via == "api-pristine" {
+		wd, _ := os.Getwd()
+		os.MkdirAll("var", 0o755)
+		cfg := config.NewDefault()
+		cfg.Cache.File.Dir.Overwrite(filepath.Join(wd, "c19polcache"))
+		cfg.Cache.Type.Overwrite(config.CacheType(b.Str("backend", "memory")))
+		var err error
+		if p, err = rig.StartProxyWith(cfg); err != nil {
+			r.Inconclusive("cannot start a proxy under the default configuration: " + err.Error())
+			return
+		}
+	} else {
+		p = rig.StartProxy(rig.ProxyOpts{Backend: b.Str("backend", "memory")})
+	}
 	defer p.Close()
 	rng := b.Rand("c19-policy")
 	for i := 0; i < b.Int("n", 60); i++ {
@@ -472,11 +490,19 @@ func c19RunPolicy(b core.Batch, r *core.Recorder) {
 		ignore := rng.IntN(2) == 0
 		retry := rng.IntN(2) == 0
 		retry416 := rng.IntN(2) == 0
-		p.Cfg.Proxy.CachePolicy.IgnoreCacheControl.Overwrite(ignore)
-		p.Cfg.Proxy.RetryOnInvalidRange.Overwrite(retry)
-		p.Cfg.Proxy.RetryOnRange416.Overwrite(retry416)
-		id := fmt.Sprintf("p%d", i)
-		cs := map[string]any{"id": id, "ignore_cache_control": ignore, "retry_on_invalid_range": retry}
+		if via == "api-pristine" {
+			st, err := config.UpdatePartialFromConfig(p.Cfg, map[string]any{"proxy": map[string]any{"retry_on_invalid_range": retry, "retry_on_range_416": retry416, "cache_policy": map[string]any{"ignore_cache_control": ignore}}})
+			if err != nil || st == config.UpdateStatusFailed {
+				r.NotJudged("policy-update-refused")
+				continue
+			}
+		} else {
+			p.Cfg.Proxy.CachePolicy.IgnoreCacheControl.Overwrite(ignore)
+			p.Cfg.Proxy.RetryOnInvalidRange.Overwrite(retry)
+			p.Cfg.Proxy.RetryOnRange416.Overwrite(retry416)
+		}
+		id := fmt.Sprintf("p%d-%s", i, via)
+		cs := map[string]any{"id": id, "ignore_cache_control": ignore, "retry_on_invalid_range": retry, "changed_via": via}
 		// ignore switch: a no-store answer is reused iff directives are ignored
 		path := fmt.Sprintf("/pol%d", i)
 		rig.Do(p, rig.Plain, o.Addr, rig.Req{Target: path})
@@ -895,6 +921,7 @@ func c19Plan(tier string, seed int64) []core.Batch {
 	bs = append(bs, core.Batch{Name: "unsub-during-fire-race", Race: true, TimeoutS: 1800, Args: map[string]any{"part": "unsub-during-fire", "rounds": bursts * 2}})
 	bs = append(bs, core.Batch{Name: "loaded", TimeoutS: 1800, Args: map[string]any{"part": "loaded"}})
 	bs = append(bs, core.Batch{Name: "policy", TimeoutS: 1800, Args: map[string]any{"part": "policy", "n": bursts}})
+	bs = append(bs, core.Batch{Name: "policy-api-pristine", TimeoutS: 1800, Args: map[string]any{"part": "policy", "n": bursts, "via": "api-pristine"}})
 	return bs
 }
 
@@ -904,7 +931,7 @@ func init() {
 		Level: "exploration",
 		Rule: "set model: every sequence up to <depth> over {subscribe (<=4 listeners), unsubscribe_i (also repeated), fire} on ConfigProp.OnChange plus seeded random sequences of 8-30 ops with up to 8 listeners; after every fire exactly the model's listener set must have been called once each, no panic. " +
 			"latest value: bursts of 2-10 back-to-back changes of max_cache_size / memory_budget_percent / cleanup_interval on live memory and file caches and of the log level on the real logger, under GOMAXPROCS 1, 2, 16, every third burst while the janitor loop is parked inside a cleanup cycle (hook); at observed quiescence the component state must equal the last value. " +
-			"shutdown: three caches on one config, every prefix of every destruction order, shut down by Destroy or by cancelling the context and then Destroy; a change must then reach exactly the survivors, and after everything is shut down further changes must leave no goroutine in the cache package. first use: on a fresh configuration the first subscriptions and first changes of a never-used setting are released at once from 3-4 goroutines, then a further change must reach every listener with its value (race build). unsubscribe during a change: 3..512 listeners, 1-3 early ones shut down from other goroutines at the instant the setting changes; survivors must each be told exactly once, also about the next change. loaded configuration: per setting a configuration loaded from the file, then its first change through the API entry point (including to the zero value of its type) must reach its listener. policy: ignore_cache_control / retry_on_invalid_range / retry_on_range_416 toggled between requests through the real proxy. Non-trivial = distinct sequence with a fire and >= 2 listeners / burst / order / toggle.",
+			"shutdown: three caches on one config, every prefix of every destruction order, shut down by Destroy or by cancelling the context and then Destroy; a change must then reach exactly the survivors, and after everything is shut down further changes must leave no goroutine in the cache package. first use: on a fresh configuration the first subscriptions and first changes of a never-used setting are released at once from 3-4 goroutines, then a further change must reach every listener with its value (race build). unsubscribe during a change: 3..512 listeners, 1-3 early ones shut down from other goroutines at the instant the setting changes; survivors must each be told exactly once, also about the next change. loaded configuration: per setting a configuration loaded from the file, then its first change through the API entry point (including to the zero value of its type) must reach its listener. policy: ignore_cache_control / retry_on_invalid_range / retry_on_range_416 toggled between requests through the real proxy, once with Overwrite on the usual rig proxy and once through the API entry point on a proxy built from a default configuration whose policy settings nobody touched before NewProxy. Non-trivial = distinct sequence with a fire and >= 2 listeners / burst / order / toggle.",
 		Assumptions: []string{"quiescence of the notifications is observed (co-listeners counted); components then get a bounded grace of 5 s to end on the last value (janitor.interval.applied hook); bursts whose notifications are not all delivered within 10 s are not judged", "settings are changed with ConfigProp.Overwrite, the same entry point command-line overrides use"},
 		Plan:        c19Plan,
 		Run:         c19Run,
